@@ -218,6 +218,11 @@ PROPS = {
     "C11": {
         "class_prefixes": ["c11-", "harness-crash"],
         "subs": [
+            {"name": "hreuse", "n_quick": 60, "n_thorough": 1500, "oracle": False,
+             "rule": "three sending links on one real client session against a scripted peer: attach / peer detach (closing or not) / detach keeping the "
+                     "DetachedSender / close / drop of the link or of the detached endpoint / send, 8 fixed scripts (a handle released by an answered detach "
+                     "and taken by the next link while the first endpoint is still around) plus random ones; on the frames the client writes: a detach names "
+                     "only a handle the op's own link holds, an attach never takes a handle another link holds, a send on a link nobody detached succeeds"},
             {"name": "c11", "n_quick": 3000, "n_thorough": 100000, "model": "coq/Session/Ids.v, coq/Lib/Slab.v",
              "rule": "lnk: histories of allocate (6 names, duplicates likely) / peer attach (sparse, large and reused input handles) / "
                      "peer detach / local detach / route-a-transfer on one real Session; chn: pairs of local/remote channel-max from "
